@@ -418,7 +418,21 @@ impl DmlExecutor {
         row_id: UInt64,
     ) -> RuntimeResult<Row> {
         let num_cols = schema.num_columns();
-        let mut full_values: Vec<DataType> = vec![DataType::Null; num_cols];
+        // Columns that are not listed take their declared default (NULL when there is none).
+        let mut full_values: Vec<DataType> = Vec::with_capacity(num_cols);
+        for column in schema.iter_columns() {
+            let value = match column.default.as_ref() {
+                Some(bytes) => {
+                    let (value, _) = column
+                        .datatype()
+                        .reinterpret_cast(bytes)
+                        .map_err(|e| RuntimeError::Other(format!("invalid default value: {e}")))?;
+                    value.to_owned().unwrap_or(DataType::Null)
+                }
+                None => DataType::Null,
+            };
+            full_values.push(value);
+        }
 
         // First column is always the row ID (primary key)
         full_values[0] = DataType::BigUInt(row_id);
